@@ -1,6 +1,6 @@
 (* C19 — alternative entry points for the same structure agree. *)
 From Model Require Import Bytes Prim Tables Cert KAC Sig.
-From Proofs Require Import BytesLemmas PrimProofs Frame LeafProofs.
+From Proofs Require Import BytesLemmas PrimProofs Frame LeafProofs TypedRT.
 Open Scope Z_scope.
 
 Theorem C19_integer_constructors : forall v n, new_integer_from_int v n = encode_int_n v n.
@@ -40,3 +40,15 @@ Qed.
 Theorem C19_key_certificate_two_ways : forall b,
   new_key_certificate b = (do cr <- read_certificate b; do k <- keycert_from_cert (fst cr); Ok (k, snd cr)).
 Proof. reflexivity. Qed.
+
+(* the key-type-specific readers accept exactly the inputs on which the generic reader
+   returns a value declaring their key sizes, and return the same value and remainder *)
+Theorem C19_elg_ed25519_reader_vs_generic : forall x k r, wf x ->
+  (read_kac_elg_ed25519 x = Ok (k, r) <->
+   (read_keys_and_cert x = Ok (k, r) /\ kc_crypto_size_of (k_kc k) = 256 /\ kc_signing_pubkey_size (k_kc k) = 32)).
+Proof. exact elg_ed25519_reader_agrees. Qed.
+Theorem C19_x25519_ed25519_reader_vs_generic : forall x k r, wf x ->
+  (read_kac_x25519_ed25519 x = Ok (k, r) <->
+   (read_keys_and_cert x = Ok (k, r) /\ kc_crypto_size_of (k_kc k) = 32 /\ kc_signing_pubkey_size (k_kc k) = 32)).
+Proof. exact x25519_ed25519_reader_agrees. Qed.
+Print Assumptions C19_x25519_ed25519_reader_vs_generic.
